@@ -83,16 +83,24 @@ def coq_sources():
 
 
 def run_generators():
-    """Translators: regenerate theories/Generated/*.v from /repo's working tree."""
+    """Translators: regenerate theories/Generated/*.v from /repo's working tree.
+    A translator names its output in a line `# OUTPUT: <File.v>`; when it fails, that file is removed so
+    that exactly the theorems depending on it break (never a stale table)."""
     gen = os.path.join(VERIF, "gen")
+    outdir = os.path.join(COQ, "theories", "Generated")
     msgs = []
     if os.path.isdir(gen):
         for f in sorted(os.listdir(gen)):
             if f.endswith(".py") and not f.startswith("_"):
-                rc, out = sh([sys.executable, os.path.join(gen, f), REPO, os.path.join(COQ, "theories", "Generated")],
-                             timeout=300)
+                path = os.path.join(gen, f)
+                rc, out = sh([sys.executable, path, REPO, outdir], timeout=300)
                 if rc != 0:
-                    msgs.append("translator %s failed: %s" % (f, out[-2000:]))
+                    msgs.append("translator %s failed: %s" % (f, out[-500:]))
+                    for m in re.finditer(r"#\s*OUTPUT:\s*(\S+)", open(path).read()):
+                        try:
+                            os.remove(os.path.join(outdir, m.group(1)))
+                        except FileNotFoundError:
+                            pass
     return msgs
 
 
@@ -114,7 +122,7 @@ def coq_build(targets, timeout=1500):
         os.makedirs(os.path.join(VERIF, "oracle", "gen"), exist_ok=True)
         rc, out = sh(["timeout", str(timeout), "make", "-j%d" % NPROC] + targets, cwd=COQ, timeout=timeout + 30)
         log = "\n".join(gen_msgs) + out
-        return (rc == 0 and not gen_msgs), log
+        return rc == 0, log
 
 
 def failing_coq_item(log):
@@ -378,10 +386,16 @@ def coq_list(nums):
 # ---------------------------------------------------------------------------
 
 def known_findings(prop_id):
-    p = os.path.join(VERIF, "known_findings.json")
-    if not os.path.exists(p):
-        return []
-    return [e for e in json.load(open(p))["findings"] if e["property"] == prop_id and e["status"] == "open"]
+    """open findings of a property, read from findings.d/ (known_findings.json is assembled from the same files)"""
+    out = []
+    d = os.path.join(VERIF, "findings.d")
+    if os.path.isdir(d):
+        for f in sorted(os.listdir(d)):
+            if f.endswith(".json"):
+                for e in json.load(open(os.path.join(d, f))).get("findings", []):
+                    if e.get("property") == prop_id and e.get("status") == "open":
+                        out.append(e)
+    return out
 
 
 class Result:
